@@ -16,10 +16,10 @@ import (
 // templates are tagged arrays shared with Quasi.tla
 type tmpl = []any
 
-func tAtom(v any) tmpl            { return tmpl{"atom", v} }
-func tUnq(n string) tmpl          { return tmpl{"unq", n} }
-func tSplice(n string) tmpl       { return tmpl{"splice", n} }
-func tSum(a, b int) tmpl          { return tmpl{"unqsum", a, b} }
+func tAtom(v any) tmpl      { return tmpl{"atom", v} }
+func tUnq(n string) tmpl    { return tmpl{"unq", n} }
+func tSplice(n string) tmpl { return tmpl{"splice", n} }
+func tSum(a, b int) tmpl    { return tmpl{"unqsum", a, b} }
 func tSeq(kind string, ts ...tmpl) tmpl {
 	s := []any{}
 	for _, t := range ts {
